@@ -40,6 +40,7 @@ fn $name() {
     if h < 3 {
         let again = res.remove(handle);
         assert!(again.is_err(), "a removed item cannot be removed again");
+        assert!(!res.has(handle), "a removed item is no longer there");
         let g = res.get(handle);
         assert!(g.is_err(), "a removed item no longer resolves");
         core::mem::forget(g);
